@@ -50,11 +50,14 @@ def _alarm(signum, frame):
     raise Timeout()
 
 
+HANG_S = 5.0
+
+
 def safe_read(data):
     """('ok', point bytes, n) / ('err', exception name) / ('hang',)"""
     import laspy
     signal.signal(signal.SIGALRM, _alarm)
-    signal.alarm(20)
+    signal.setitimer(signal.ITIMER_REAL, HANG_S)
     try:
         las = laspy.read(io.BytesIO(data))
         return ("ok", las.points.array.tobytes(), len(las.points))
@@ -63,7 +66,7 @@ def safe_read(data):
     except Exception as e:
         return ("err", type(e).__name__)
     finally:
-        signal.alarm(0)
+        signal.setitimer(signal.ITIMER_REAL, 0)
 
 
 def cut_points(log, tier, rng, header_len):
@@ -84,11 +87,21 @@ def cut_points(log, tier, rng, header_len):
     return sorted(pts)
 
 
+class TooManyHangs(Exception):
+    pass
+
+
+HANGS = [0]
+
+
 def check_image(ck, img, intended, size, inp, what, lines, meta):
     r = safe_read(img)
     ck.count("verdict:" + r[0] + (":" + r[1] if r[0] == "err" else ""))
     if r[0] == "hang":
-        ck.fail(f"{what}: reading did not terminate within 20 s", inp)
+        ck.fail(f"{what}: reading did not terminate within {HANG_S:.0f} s", inp)
+        HANGS[0] += 1
+        if HANGS[0] >= 3:
+            raise TooManyHangs()       # every further image would cost the watchdog's time: the violation is established
         return
     if r[0] == "ok":
         got = r[1]
@@ -117,11 +130,27 @@ def run(ck):
     q = ck.tier == "quick"
     lines, meta = [], []
     n_sessions = 12 if q else 90
+    HANGS[0] = 0
+    try:
+        explore(ck, q, n_sessions, lines, meta)
+    except TooManyHangs:
+        ck.count("exploration_stopped_after_hangs")
+    finish(ck, lines, meta)
+
+
+def explore(ck, q, n_sessions, lines, meta):
+    import laspy
+    from laspy.laswriter import LasWriter
     for si in range(n_sessions):
         minor, fmt = fio.PAIRS[si % len(fio.PAIRS)]
         kind = ["oneshot", "chunked", "append"][si % 3]
         n = ck.rng.choice([0, 1, 3, 260, 300]) if not q else ck.rng.choice([0, 3, 260])
         evlrs = fio.rand_vlrs(ck.rng, True, 1) if (minor >= 4 and ck.rng.random() < 0.6) else None
+        if kind == "chunked" and (si // 3) % 2 == 1:
+            # filtered copy on 1.4 with EVLR bytes after the points long enough to be taken for the missing records
+            minor, fmt = ck.rng.choice([pr for pr in fio.PAIRS if pr[0] == 4])
+            n = ck.rng.choice([3, 5, 260])
+            evlrs = [("verif", 9, "after the points", bytes(ck.rng.getrandbits(8) for _ in range(400)))]
         if kind == "append" and (si // 3) % 2 == 0:
             # every other append session works on a 1.4 file that has points and EVLRs after them: the appender writes the new
             # points over the old EVLRs, the window in which a stale header would expose them as points
@@ -139,9 +168,15 @@ def run(ck):
         if kind == "oneshot":
             las.write(rec)
         elif kind == "chunked":
+            # every other chunked session is a filtered copy: the header handed to the writer advertises more points
+            # (the source's count) than the session writes
+            keep = n if (si // 3) % 2 == 0 or n == 0 else ck.rng.choice([n - 1, n - 2, ck.rng.randrange(0, n)])
+            if keep != n:
+                ck.count("chunked_filtered_copy")
+                intended = las.points.array[:keep].tobytes()
             w = LasWriter(rec, las.header, closefd=False)
             pos = 0
-            for p in c04.rand_partition(ck.rng, n):
+            for p in c04.rand_partition(ck.rng, keep):
                 w.write_points(las.points[pos:pos + p])
                 pos += p
             if minor >= 4 and las.evlrs is not None:
@@ -178,6 +213,13 @@ def run(ck):
                    (len(merged) == 1 and merged[0][0] == 0 and kind != "append")
         if kind == "append" and len(merged) == 1:
             shape_ok = merged[0][0] == 0 and len(merged[0][1]) <= off0      # nothing appended: only the header rewrite
+        if kind != "append" and merged and merged[0][0] == 0 and len(merged[0][1]) >= 375:
+            first = merged[0][1]
+            c0 = int.from_bytes(first[247:255], "little") if first[25] >= 4 else int.from_bytes(first[107:111], "little")
+            if c0 != 0:
+                # premise of the crash theorem (C19_writer_crash: the header in place while points stream advertises none)
+                ck.fail(f"{kind} session: the header written before the points advertises {c0} points, not 0",
+                        {"kind": kind, "minor": minor, "fmt": fmt, "n": n, "what": "initial-header-count"}, source="correspondence")
         if not shape_ok:
             ck.fail(f"{kind} session: the write stream is not 'sequential data from {start}, then one header rewrite at 0': "
                     f"{[(p_, len(d_)) for p_, d_ in merged][:6]}", {"kind": kind, "minor": minor, "fmt": fmt, "n": n, "what": "log-shape"}, source="correspondence")
@@ -203,6 +245,9 @@ def run(ck):
             check_image(ck, final[:t], intended, size, inp, f"{kind} file truncated to {t} of {L} bytes", lines, meta)
         if si < 3:
             ck.sample(dict(inp0, crash_points=len(cuts), truncations=len(lens), stream_bytes=sum(len(d) for _, d in rec.log)))
+
+
+def finish(ck, lines, meta):
     out = ck.driver(lines)
     bad = None
     gaps = 0
